@@ -294,6 +294,39 @@ def dlast_cases(rnd, n):
     return out
 
 
+def srcstale_cases(rnd, n):
+    """two-operand queries whose SOURCE buffer holds stale characters behind its terminator, inside slen (a buffer that held a longer
+    string before): the characters are ones the query looks for in dest, so a scan of the source that is bounded by slen only (memchr
+    over slen, a compare that runs on behind the terminator) changes the answer.  dest likewise has stale letters inside dmax."""
+    out = []
+    fns = [("strstr_s", 1), ("strcasestr_s", 1), ("wcsstr_s", 4), ("strpbrk_s", 1), ("strspn_s", 1), ("strcspn_s", 1),
+           ("wcscmp_s", 4), ("wcsncmp_s", 4), ("wcsicmp_s", 4), ("wcsnatcmp_s", 4), ("wcsnaticmp_s", 4)]
+    for fn, w in fns:
+        for _ in range(n):
+            hl = rnd.randint(1, 8)
+            alpha = [97, 98, 99] if rnd.random() < 0.7 else [97, 65, 98, 49]
+            hay = [rnd.choice(alpha) for _ in range(hl)]
+            if fn in ("wcscmp_s", "wcsncmp_s", "wcsicmp_s", "wcsnatcmp_s", "wcsnaticmp_s"):
+                needle = list(hay) if rnd.random() < 0.7 else hay[:rnd.randint(0, hl)]          # equal up to the terminator(s)
+            else:
+                nl = rnd.randint(0 if fn in ("strspn_s", "strcspn_s", "strpbrk_s") else 1, 3)
+                pool = [c for c in alpha if c not in hay[:max(1, hl // 2)]] or alpha          # (often) not in the front part of dest
+                needle = [rnd.choice(pool) for _ in range(nl)]
+            nl = len(needle)
+            extra = rnd.randint(1, 3)
+            slen = nl + 1 + extra
+            stale = [rnd.choice(hay) for _ in range(extra)]                                     # what dest holds, behind the source's terminator
+            dextra = rnd.choice([0, 0, 2])
+            dmax = hl + 1 + dextra
+            d = 2
+            a = blank(d - 1) + hay + [0] + [rnd.choice(alpha) for _ in range(dextra)]
+            a += blank(2)
+            s = len(a) + 1
+            a += needle + [0] + stale + blank(1)
+            out.append(case(fn, w, d, dmax, s, slen, a, n=(rnd.choice([1, hl, hl + 3]) if fn == "wcsncmp_s" else 0)))
+    return out
+
+
 def password_cases(rnd, n):
     """strispassword_s needs strings of 6..31 characters: beyond the TLC arena, seeded here"""
     out = []
@@ -371,7 +404,7 @@ def cases(family, seed, tier):
     if family == "strcopy":
         return copy_cases(rnd, k) + cat_cases(rnd, k)
     if family in ("query2", "query2_small"):
-        return find_cases(rnd, k * 5) + cmp_cases(rnd, k * 5) + nat_cases(rnd, k * 5) + dlast_cases(rnd, k * 4)
+        return find_cases(rnd, k * 5) + cmp_cases(rnd, k * 5) + nat_cases(rnd, k * 5) + dlast_cases(rnd, k * 4) + srcstale_cases(rnd, k * 4)
     if family == "query1":
         return password_cases(rnd, k * 10)
     if family == "strfld":
